@@ -418,6 +418,26 @@ pub fn log(tag: u8, x: u64, y: u64) {
 }
 
 
+/// `std::thread::sleep` / `yield_now` for code under test that may run inside OR outside a
+/// simulated run (C18 and C19 call the library directly on a driver thread for most of their
+/// evaluations): inside, the call is a scheduling point and the simulated clock advances by the
+/// requested time; outside, the simulated clock advances and nothing blocks (no real sleep: a
+/// check must not depend on, or wait for, the wall clock). shuttle's own `sleep` panics outside
+/// an execution, which would be reported as a panic of the library.
+pub mod thread {
+    pub fn sleep(d: std::time::Duration) {
+        super::with(|c| c.clock_ns = c.clock_ns.saturating_add(u64::try_from(d.as_nanos()).unwrap_or(u64::MAX)));
+        if super::active() {
+            shuttle::thread::sleep(std::time::Duration::from_nanos(0));
+        }
+    }
+    pub fn yield_now() {
+        if super::active() {
+            shuttle::thread::yield_now();
+        }
+    }
+}
+
 // ---------------------------------------------------------------------------------------------
 // Simulated clock
 // ---------------------------------------------------------------------------------------------
